@@ -877,6 +877,20 @@ namespace vw
             const HOp& h = w.history[opi];
             g_current_op = static_cast<int>(opi);
             vsim::note(11, static_cast<uint64_t>(h.kind), opi);
+            const uint64_t steps_before = vsim::now();
+            struct StepMeter
+            {
+                std::map<std::string, uint64_t>& c;
+                uint64_t t0;
+                int kind;
+                ~StepMeter()
+                {
+                    const uint64_t used = vsim::now() - t0;
+                    uint64_t& mx = c[std::string("max.steps_per_call.") + hop_name(kind)];
+                    if (used > mx)
+                        mx = used;
+                }
+            } meter{ C, steps_before, h.kind };
             switch (h.kind)
             {
                 case H_UPDATE:
